@@ -230,12 +230,15 @@ func isCallTo(v any, names ...string) bool {
 	}
 	n := calleeName(c)
 	for _, x := range names {
-		if n == x {
+		if sameFn(n, x) {
 			return true
 		}
 	}
 	return false
 }
+
+// calleeIs: the call's callee has the given key (up to the shape of an unexported helper, see sameFn).
+func calleeIs(c ssa.CallInstruction, key string) bool { return sameFn(calleeName(c), key) }
 
 // bigMethod returns the method name if c is a call to a method of gabi/big.Int or math/big.Int, else "".
 func bigMethod(c ssa.CallInstruction) string {
